@@ -92,6 +92,107 @@ func policies() []policy {
 	}
 }
 
+// figure8 steers a 5-server run through the schedule of Figure 8 of the Raft paper: a leader of an old term
+// replicates an entry to a minority and is partitioned away; another server is elected, appends a competing
+// entry and is partitioned before replicating it; the first leader returns, is re-elected and finishes
+// replicating its OLD-term entry to a majority; then the second server returns and is elected. Safe Raft never
+// counts the old-term entry as committed on replica count alone. Phases are (eligible servers, who may time out,
+// goal, step budget); partitions are starvation, so every schedule is one the real system can produce.
+func figure8(rs *adapters.RaftSim, seed int64) {
+	s := rs.Sched
+	st := s.Store
+	base := s.Eligible
+	srvOf := func(p *simsched.Proc) int {
+		var n int
+		if _, err := fmt.Sscanf(p.Group, "srv%d", &n); err != nil {
+			return 0
+		}
+		return n
+	}
+	state := func(i int) string { return st.Get("state").ApplyFunction(simsched.N(i)).AsString() }
+	term := func(i int) int { return int(st.Get("currentTerm").ApplyFunction(simsched.N(i)).AsNumber()) }
+	logLen := func(i int) int { return st.Get("log").ApplyFunction(simsched.N(i)).AsTuple().Len() }
+	commit := func(i int) int { return int(st.Get("commitIndex").ApplyFunction(simsched.N(i)).AsNumber()) }
+	type phase struct {
+		name        string
+		servers     map[int]bool // servers whose archetypes may run
+		aserverOnly map[int]bool // of those, servers restricted to their AServer (message handling) archetype
+		clients     bool
+		lt          int // server whose election timer may fire
+		goal        func() bool
+		budget      int
+	}
+	all := func(xs ...int) map[int]bool {
+		m := map[int]bool{}
+		for _, x := range xs {
+			m[x] = true
+		}
+		return m
+	}
+	phases := []phase{
+		{"elect-1", all(1, 2, 3, 4, 5), nil, false, 1, func() bool { return state(1) == "leader" }, 400},
+		{"append-and-replicate-to-2", all(1, 2), all(2), true, 0, func() bool { return logLen(1) >= 1 && logLen(2) >= 1 }, 400},
+		{"elect-5-without-1-2", all(3, 4, 5), nil, false, 5, func() bool { return state(5) == "leader" }, 500},
+		{"5-appends-unreplicated", all(5), all(5), true, 0, func() bool { return logLen(5) >= 1 }, 400},
+		{"re-elect-1-without-5", all(1, 2, 3, 4), nil, false, 1, func() bool { return state(1) == "leader" && term(1) > term(5) }, 800},
+		{"1-replicates-old-entry-to-3", all(1, 2, 3, 4), nil, false, 0, func() bool { return logLen(3) >= 1 && commit(1) >= 1 }, 250},
+		{"elect-5-without-1", all(2, 3, 4, 5), nil, false, 5, func() bool { return state(5) == "leader" && term(5) > term(1) }, 900},
+		{"5-overwrites", all(2, 3, 4, 5), nil, false, 0, func() bool { return false }, 200},
+	}
+	cur, since, lastStep := 0, 0, -1
+	rs.Params["fig8_goals_met"] = 0
+	// while 5 is being elected for the second time the old leader's traffic to it stays in flight
+	rs.LinkDelay = func(dest, src int) bool { return cur >= 6 && dest == 5 && src == 1 }
+	s.Eligible = func(p *simsched.Proc, step int) bool {
+		if base != nil && !base(p, step) {
+			return false
+		}
+		if step != lastStep {
+			lastStep = step
+			since++
+			for cur < len(phases)-1 && (phases[cur].goal() || since > phases[cur].budget) {
+				if phases[cur].goal() {
+					rs.Params["fig8_goals_met"] = rs.Params["fig8_goals_met"].(int) + 1
+				}
+				cur++
+				since = 0
+			}
+		}
+		ph := phases[cur]
+		switch p.Group {
+		case "client":
+			return ph.clients
+		case "crasher":
+			return false
+		}
+		n := srvOf(p)
+		if !ph.servers[n] {
+			return false
+		}
+		if ph.aserverOnly[n] && p.Arch.Name != "AServer" {
+			return false
+		}
+		return true
+	}
+	s.Choice = func(p *simsched.Proc, id string, ceiling uint) uint {
+		switch id {
+		case "coin.lt":
+			if n := srvOf(p); n == phases[cur].lt && (state(n) != "candidate" || s.Rng.Intn(100) < 4) {
+				return 0 // below any bias: the timer fires (rarely again while already a candidate)
+			}
+			return ceiling - 1
+		case "coin.fd":
+			return ceiling - 1 // nobody is suspected: partitions are silence, not failure reports
+		case "coin.to":
+			if s.Rng.Intn(100) < 15 {
+				return 0
+			}
+			return ceiling - 1
+		}
+		return uint(s.Rng.Intn(int(ceiling)))
+	}
+}
+
 func main() {
 	r := common.Start("C08", "exploration")
 	if common.ChildRole() == "cluster" {
@@ -112,6 +213,7 @@ func main() {
 	labels := map[string]int{}
 	maxTerm, elections, truncations, crashes, applied, leaderChanges := 0, 0, 0, 0, 0, 0
 	perPolicy := map[string]int{}
+	fig8Goals := map[string]int{} // number of the 7 scenario goals met -> runs
 	common.Parallel(runs, 8, func(i int) {
 		seed := r.Seed*1_000_003 + int64(i)
 		rng := r.Rand(fmt.Sprintf("c08-%d", i))
@@ -125,13 +227,25 @@ func main() {
 			o.BiasLeaderTimeout = 25
 		}
 		pol := pols[i%len(pols)]
+		if i%6 == 5 || os.Getenv("C08_ONLY") == "figure-8" { // directed scenario on five servers
+			pol = policy{"figure-8", figure8}
+			ns = 5
+			o.NS, o.NC, o.MaxNodeFail, o.BufferSize, o.Keys = 5, 1+rng.Intn(2), 0, 12, 1
+		}
 		rs := adapters.Raftkvs(seed, o)
 		pol.apply(rs, seed)
-		out := rs.Run(steps, false)
+		runSteps := steps
+		if pol.name == "figure-8" {
+			runSteps = 3500
+		}
+		out := rs.Run(runSteps, false)
 		mu.Lock()
 		defer mu.Unlock()
 		evals++
 		perPolicy[pol.name]++
+		if g, ok := rs.Params["fig8_goals_met"]; ok {
+			fig8Goals[fmt.Sprint(g)]++
+		}
 		totSteps += out.Result.Steps
 		totAborts += out.Result.Aborts
 		for l, c := range out.Labels {
@@ -234,11 +348,11 @@ func main() {
 		Samples:            samples.S,
 		Floor:              8,
 		Extra: map[string]any{
-			"sim_runs": runs, "sim_runs_per_policy": perPolicy, "sim_committed_steps": totSteps, "sim_aborted_attempts": totAborts,
+			"sim_runs": runs, "sim_runs_per_policy": perPolicy, "figure8_goals_met_histogram": fig8Goals, "sim_committed_steps": totSteps, "sim_aborted_attempts": totAborts,
 			"labels_committed": labels, "labels_never_committed": never,
 			"max_term": maxTerm, "leaders_elected": elections, "leader_changes": leaderChanges, "log_truncations": truncations, "crashes": crashes, "entries_committed": applied,
 			"tlc_traces_validated": tlcOK, "tlc_traces_submitted": tlcN, "tlc_states_validated": tlcStates,
-			"cluster": clusterEv.extra,
+			"cluster":                    clusterEv.extra,
 			"reached_interesting_region": truncations > 0 && leaderChanges > 0,
 		},
 	}, []string{
